@@ -6,6 +6,7 @@ import (
 	"go/types"
 	"os"
 	"sort"
+	"strconv"
 	"strings"
 
 	"golang.org/x/tools/go/ssa"
@@ -902,6 +903,94 @@ func propC19(c *Ctx) {
 		}
 	}
 	c.Check("R19.5", "New/fresh-identity", newFn.Pos(), okKey, "the cookie key is generated by age.GenerateX25519Identity() at construction")
+
+	// ---- R19.6 ----------------------------------------------------------
+	// encoding/json drops, without an error, EVERY field of a struct whose JSON name is shared by another field of
+	// the same depth: a second field tagged `enable_loopback_authn` (copied from the line above) silently turns the
+	// operator's switch off (round 9, seed C19-R9A). Decided for the structs on the way from the configuration root
+	// to the switches the guard of R19.1 reads.
+	c.Rule("R19.6", "the switches the authentication guard reads are reachable from the configuration file: no other field of config.Root / config.Dashboard shares their JSON name", 3)
+	for _, tn := range []string{"Root", "Dashboard"} {
+		named := w.Named("shovel/config", tn)
+		st, isSt := named.Underlying().(*types.Struct)
+		if !isSt {
+			c.Violation("R19.6", "config."+tn+"/json-names-unique", named.Obj().Pos(), "not a struct")
+			continue
+		}
+		byName := map[string][]string{}
+		for i := 0; i < st.NumFields(); i++ {
+			f := st.Field(i)
+			if !f.Exported() || f.Embedded() {
+				continue
+			}
+			name := f.Name()
+			if tag, has := reflectTag(st.Tag(i), "json"); has {
+				if tag == "-" {
+					continue
+				}
+				if k := strings.Split(tag, ",")[0]; k != "" {
+					name = k
+				}
+			}
+			// encoding/json matches keys case-insensitively, but two fields conflict only on the exact name
+			byName[name] = append(byName[name], f.Name())
+		}
+		var dup []string
+		for k, fs := range byName {
+			if len(fs) > 1 {
+				sort.Strings(fs)
+				dup = append(dup, fmt.Sprintf("%q: %s", k, strings.Join(fs, ", ")))
+			}
+		}
+		sort.Strings(dup)
+		c.Check("R19.6", "config."+tn+"/json-names-unique", named.Obj().Pos(), len(dup) == 0, fmt.Sprintf("%d exported fields, JSON names shared by two fields (encoding/json then ignores both): %v", len(byName), dup))
+	}
+	for _, f := range []*types.Var{fDisable, fLoop} {
+		c.Check("R19.6", "config.Dashboard."+f.Name()+"/decoded", f.Pos(), f.Exported(), "the switch is an exported field (encoding/json can set it)")
+	}
+}
+
+// reflectTag: the value of key in a struct tag (conventional format), as reflect.StructTag.Lookup reads it
+func reflectTag(tag, key string) (string, bool) {
+	for tag != "" {
+		i := 0
+		for i < len(tag) && tag[i] == ' ' {
+			i++
+		}
+		tag = tag[i:]
+		if tag == "" {
+			break
+		}
+		i = 0
+		for i < len(tag) && tag[i] > ' ' && tag[i] != ':' && tag[i] != '"' && tag[i] != 0x7f {
+			i++
+		}
+		if i == 0 || i+1 >= len(tag) || tag[i] != ':' || tag[i+1] != '"' {
+			break
+		}
+		name := tag[:i]
+		tag = tag[i+1:]
+		i = 1
+		for i < len(tag) && tag[i] != '"' {
+			if tag[i] == '\\' {
+				i++
+			}
+			i++
+		}
+		if i >= len(tag) {
+			break
+		}
+		q := tag[:i+1]
+		tag = tag[i+1:]
+		if name == key {
+			v, err := strconv.Unquote(q)
+			if err != nil {
+				break
+			}
+			return v, true
+		}
+	}
+	return "", false
 }
 
 // repoOrHTTPRequest: base is a *net/http.Request value (a handler's request)
